@@ -716,8 +716,11 @@ def r6(k: Kit) -> None:
                 continue
             g = g or k.cfg(fi)
             sites += 1
-            canc = [x.id for x, c in k.calls_named(fi, 'cancel', 'self')]
-            w = g.path(g.entry, n.id, blocked_nodes=canc)
+            canc = [x.id for x, c in k.calls_named(fi, 'cancel')
+                    if dotted(c.func.value) in ('self', 'self._coro')]
+            w = g.guarded_by(n.id, lambda x: False if x.kind == 'atom' and
+                             dotted(x.ast) == 'self._coro' else None,
+                             extra_blocked=canc)
             rep.check(bool(canc) and w is None, 'C05.R6',
                       key(fi, 'cancel before new validator'),
                       'the previous validator task is cancelled before a new '
